@@ -109,6 +109,7 @@ func newHistGen(t *rapid.T, w *sim.World) *histGen {
 		"ibtp-req", "ibtp-req", "ibtp-req", "ibtp-rcpt", "ibtp-rcpt", "ibtp-badidx", "ibtp-badproof",
 		"group", "gov-register-chain", "gov-register-service", "gov-vote", "gov-vote", "gov-vote", "gov-lifecycle",
 		"malformed", "malformed", "xvm", "badsig", "poor", "query",
+		"script", "script", "script",
 	}
 	return g
 }
@@ -367,6 +368,12 @@ func (g *histGen) genTx() *txSpec {
 		s.tx = w.BVM(poor, constant.StoreContractAddr, "Set", pb.String("p"), pb.String("q"))
 		s.victim = true
 		s.desc = "BVM call by an account that cannot pay the fee"
+	case "script":
+		from := g.actor("from")
+		script, fails := genScript(t)
+		s.tx = w.Script(from, script)
+		s.victim = fails
+		s.desc = "script{" + script + "}"
 	default: // query
 		from := g.actor("from")
 		s.tx = w.BVM(from, constant.AppchainMgrContractAddr, "Appchains")
@@ -472,4 +479,62 @@ func intsUpTo(n int) []int {
 		out[i] = i
 	}
 	return out
+}
+
+// genScript draws a script for sim.ScriptContract over a small key space (so that a key is written, deleted and
+// rewritten by different transactions of one block and across blocks); fails tells whether the outer script ends in
+// fail or panic.
+func genScript(t *rapid.T) (string, bool) {
+	key := func() string { return fmt.Sprintf("k%d", rapid.IntRange(0, 3).Draw(t, "skey")) }
+	val := func() string {
+		return rapid.SampledFrom([]string{"", "a", "b", "long-value-000000000000000000000000000000000000"}).Draw(t, "sval")
+	}
+	op := func(inner bool) string {
+		k := rapid.IntRange(0, 11).Draw(t, "sop")
+		switch k {
+		case 0, 1, 2:
+			return "set " + key() + " " + val()
+		case 3, 4:
+			return "del " + key()
+		case 5:
+			return "add " + key() + " " + val()
+		case 6:
+			return "setobj " + key() + " " + val()
+		case 7:
+			return "get " + key()
+		case 8:
+			return rapid.SampledFrom([]string{"has " + key(), "query k"}).Draw(t, "sread")
+		case 9:
+			return "ev " + val()
+		case 10:
+			return rapid.SampledFrom([]string{"xset sk v", "xbad"}).Draw(t, "sx")
+		default:
+			if inner {
+				return "get " + key()
+			}
+			return ""
+		}
+	}
+	end := func() string {
+		return rapid.SampledFrom([]string{"ok", "ok", "ok", "fail", "fail", "panic"}).Draw(t, "send")
+	}
+	n := rapid.IntRange(1, 6).Draw(t, "sops")
+	var ops []string
+	for i := 0; i < n; i++ {
+		o := op(false)
+		if o == "" {
+			// nested run of up to three operations with its own outcome
+			m := rapid.IntRange(1, 3).Draw(t, "sinner")
+			var in []string
+			for j := 0; j < m; j++ {
+				in = append(in, op(true))
+			}
+			in = append(in, end())
+			o = "call " + strings.Join(in, "|")
+		}
+		ops = append(ops, o)
+	}
+	e := end()
+	ops = append(ops, e)
+	return strings.Join(ops, ";"), e != "ok"
 }
